@@ -172,7 +172,16 @@ func (env *Env) eval(x Expr) TV {
 			e.n++
 			name := fmt.Sprintf("q_%s_%d", sanitize(qv.Name), e.n)
 			binds = append(binds, fmt.Sprintf("(%s %s)", name, srt))
-			inner = inner.with(qv.Name, TV{T: mk(srt, name), Typ: gt})
+			bound := TV{T: mk(srt, name), Typ: gt}
+			if srt == SInt && len(n.Vars) == 1 {
+				// an integer variable used as index into a slice: quantify over the absolute position in the
+				// backing array (k = q - off), so that s[k] becomes (select (select E arr) q), a term the
+				// solver can match on without inverting arithmetic
+				if off, ok := inner.indexedSliceOffset(n.Body, qv.Name); ok {
+					bound = TV{T: Sub(mk(SInt, name), off), Typ: types.Typ[types.Int]}
+				}
+			}
+			inner = inner.with(qv.Name, bound)
 		}
 		body := inner.evalBool(n.Body)
 		_ = guards
@@ -367,6 +376,55 @@ func (env *Env) evalField(n *EField) TV {
 	return TV{}
 }
 
+// indexedSliceOffset looks for a sub-expression s[name] where s is a slice that does not depend on
+// name, and returns the offset term of the first such slice.
+func (env *Env) indexedSliceOffset(x Expr, name string) (off Term, found bool) {
+	var walk func(x Expr, st *Env)
+	walk = func(x Expr, st *Env) {
+		if found || x == nil {
+			return
+		}
+		switch n := x.(type) {
+		case *EIndex:
+			if id, ok := n.I.(*EIdent); ok && id.Name == name {
+				func() {
+					defer func() { recover() }()
+					if _, shadow := st.vars[name]; shadow {
+						return
+					}
+					v := st.eval(n.X)
+					if v.T.Sort == SSlice {
+						off, found = SliceOff(v.T), true
+					}
+				}()
+			}
+			walk(n.X, st)
+			walk(n.I, st)
+		case *EBin:
+			walk(n.L, st)
+			walk(n.R, st)
+		case *EUn:
+			walk(n.X, st)
+		case *EField:
+			walk(n.X, st)
+		case *ECall:
+			if n.Fn == "old" && st.old != nil {
+				for _, a := range n.Args {
+					walk(a, st.inState(st.old))
+				}
+				return
+			}
+			for _, a := range n.Args {
+				walk(a, st)
+			}
+		case *EQuant:
+			// nested binders: leave alone
+		}
+	}
+	walk(x, env)
+	return
+}
+
 func (env *Env) evalIndex(n *EIndex) TV {
 	e := env.e
 	x := env.eval(n.X)
@@ -381,7 +439,15 @@ func (env *Env) evalIndex(n *EIndex) TV {
 	switch u := x.Typ.Underlying().(type) {
 	case *types.Slice:
 		arr := e.heapGet(env.state, e.p.elemKey(u.Elem()))
-		return TV{T: Select(Select(arr, SliceArr(x.T)), Add(SliceOff(x.T), i.T)), Typ: u.Elem()}
+		off := SliceOff(x.T)
+		if pre := "(- "; strings.HasPrefix(i.T.S, pre) && strings.HasSuffix(i.T.S, " "+off.S+")") {
+			// off + (q - off) == q
+			q := i.T.S[len(pre) : len(i.T.S)-len(off.S)-2]
+			if !strings.ContainsAny(q, " ()") {
+				return TV{T: Select(Select(arr, SliceArr(x.T)), mk(SInt, q)), Typ: u.Elem()}
+			}
+		}
+		return TV{T: Select(Select(arr, SliceArr(x.T)), Add(off, i.T)), Typ: u.Elem()}
 	case *types.Map:
 		mk := e.p.mapKey(u)
 		return TV{T: Select(Select(e.heapGet(env.state, mapValKey(mk)), x.T), i.T), Typ: u.Elem()}
@@ -519,6 +585,22 @@ func (env *Env) evalCall(n *ECall) TV {
 		return TV{T: StrAt(arg(0).T, arg(1).T), Typ: types.Typ[types.Uint8]}
 	case "substr":
 		return TV{T: App(SStr, "str_sub", arg(0).T, arg(1).T, arg(2).T), Typ: types.Typ[types.String]}
+	case "calls":
+		// calls("callee"): number of calls to callee made so far by this activation
+		sx, ok := n.Args[0].(*EStr)
+		if !ok {
+			evalFail("calls: callee name expected")
+		}
+		if env.opaqueLast != nil {
+			evalFail("calls: not meaningful in a callee's clause seen from a caller")
+		}
+		if t, ok := env.state.heap["cnt|"+sx.V]; ok {
+			return TV{T: t, Typ: types.Typ[types.Int]}
+		}
+		if t, ok := e.heap0["cnt|"+sx.V]; ok {
+			return TV{T: t, Typ: types.Typ[types.Int]}
+		}
+		return TV{T: IntLit(0), Typ: types.Typ[types.Int]}
 	case "lastresult":
 		// lastresult("callee"): first result of the latest call to callee on this path
 		sx, ok := n.Args[0].(*EStr)
@@ -542,6 +624,13 @@ func (env *Env) evalCall(n *ECall) TV {
 			if strings.HasPrefix(k, "last|"+sx.V+"|") {
 				return TV{T: t}
 			}
+		}
+		// no call yet on this path: the value is arbitrary (the callee is called somewhere in this function)
+		if srt, ok := e.lastSortFor(sx.V); ok {
+			k := "last|" + sx.V + "|" + string(srt)
+			t := e.fresh("last0", srt)
+			e.heap0[k] = t
+			return TV{T: t}
 		}
 		evalFail("lastresult: no call to %s before this point", sx.V)
 	case "wrap64":
